@@ -416,7 +416,9 @@ def thenSmartContract (env : Env) (msgType : MsgType) (signers : List Addr)
     | none => .ok ()
 
 /-- `ValidateWriteScope` (scope.go:424) for scopes without value owner; `specRoles` =
-`scopeSpec.PartiesInvolved`. -/
+`scopeSpec.PartiesInvolved` where `scopeSpec` is looked up with `proposed.SpecificationId`
+(scope.go:472) — the specification the PROPOSED scope names, also for the signer roles of an
+existing scope (scope.go:503). -/
 def validateWriteScope (env : Env) (existing : Option Scope) (proposed : Scope)
     (specRoles : List Role) (signers : List Addr) : Except Err Unit :=
   let msgType := "WriteScope"
